@@ -211,6 +211,7 @@ namespace
             { "G6", { "open" }, { "item" }, { "close" }, { "end" }, 1 },
             { "G7", { "{" }, {}, { "}" }, {}, 2 },
             { "G11", { "(" }, { "x", ";" }, { ")" }, {}, 2 },
+            { "G3", { "z", "x" }, {}, {}, {}, 2 },
         };
         return r;
     }
